@@ -6,6 +6,9 @@
      qexplore <gen|old> <file hex> <ranges> <workers> <failing> <max states>
      xtrace   <T|F per job stream> <sub|comp> <file hex> <ranges> <workers> <failing> <events>
      xexplore <T|F> <sub|comp> <file hex> <ranges> <workers> <failing> <max states>
+     session  <gen|off|range> <file hex> <ranges of query 1>;<ranges of query 2>;...
+              (successive queries of one reader, every strategy run yielding the local read of the ranges it is handed; gen: what
+               the source keeps between queries (gen_fetch_site), off / range: a block cache keyed by offset / by (offset, size))
      shape
    The queue strategy runs in the step-by-step system (pstate/pstep): main's puts (qput) and thread starts (start) are events.
    Events are the visible operations of the implementation in the order the controller granted them; the driver lets the
@@ -93,14 +96,19 @@ let q_enabled wp file fails s =
       | _ -> false)
     (List.init (q_threads s + 1) (fun i -> i))
 
-let q_summary wp file fails ps steps =
+(* nothing is left to do for the call: the queue is empty, nothing unfinished, no worker holds a range *)
+let q_quiet ps =
+  let s = ps.p_s in
+  ps.p_toput = [] && ps.p_tostart = O && s.s_q = [] && s.s_unf = O && List.for_all w_idle s.s_ws
+
+let q_summary ?(quiet = "-") wp file fails ps steps =
   let ps = q_all_silent wp file fails ps in
   let s = ps.p_s in
   let status = match s.s_status with MRunning -> "running" | MReturned -> "returned" | MRaised r -> "raised:" ^ tok_of_range r in
   let exited = String.concat "" (List.map (fun w -> match w with WExit -> "1" | _ -> "0") s.s_ws) in
   let en = q_enabled wp file fails ps in
-  Printf.sprintf "ok status=%s buf=%s exited=%s stuck=%s steps=%d toput=%d tostart=%d" status (tok_of_bytes s.s_buf)
-    (if exited = "" then "-" else exited) (if en = [] then "T" else "F") steps (List.length ps.p_toput) (int_of_nat ps.p_tostart)
+  Printf.sprintf "ok status=%s buf=%s exited=%s stuck=%s steps=%d toput=%d tostart=%d quiet=%s" status (tok_of_bytes s.s_buf)
+    (if exited = "" then "-" else exited) (if en = [] then "T" else "F") steps (List.length ps.p_toput) (int_of_nat ps.p_tostart) quiet
 
 let q_macro wp file fails s t =
   (* silent steps of t, then its visible step if enabled *)
@@ -113,6 +121,12 @@ let qtrace wp file ranges workers fails events =
   let s = ref (pinit gen_main_prog ranges (nat_of_int workers)) in
   let k = ref 0 in
   let err = ref None in
+  let quiet = ref "-" in      (* was nothing left to do at the moment main returned / raised? *)
+  let note () =
+    if !quiet = "-" then begin
+      let s1 = q_silent wp file fails !s 0 50 in
+      if s1.p_s.s_status <> MRunning then quiet := (if q_quiet s1 then "T" else "F")
+    end in
   List.iter (fun ev ->
       if !err = None then begin
         match String.split_on_char '.' ev with
@@ -122,13 +136,14 @@ let qtrace wp file ranges workers fails events =
           (match q_next wp s1 t with
            | `Vis l when l = lab ->
              (match pstep wp file fails s1 (nat_of_int t) with
-              | Some s2 -> s := s2; incr k
+              | Some s2 -> s := s2; incr k; note ()
               | None -> err := Some (Printf.sprintf "reject at=%d thread=%d got=%s expected=blocked" !k t lab))
            | `Vis l -> err := Some (Printf.sprintf "reject at=%d thread=%d got=%s expected=%s" !k t lab l)
            | _ -> err := Some (Printf.sprintf "reject at=%d thread=%d got=%s expected=nothing" !k t lab))
         | _ -> err := Some ("reject bad event " ^ ev)
       end) events;
-  match !err with Some e -> e | None -> q_summary wp file fails !s !k
+  note ();
+  match !err with Some e -> e | None -> q_summary ~quiet:!quiet wp file fails !s !k
 
 let q_key ps =
   let s = ps.p_s in
@@ -312,8 +327,19 @@ let tok_of_sinstr = function
   | SZeroEmpty -> "zero_empty" | SRequest -> "request" | SRaiseForStatus -> "raise_for_status" | SAdvance -> "advance"
   | SReturnContent -> "return_content"
 
+let site_of_tok = function
+  | "gen" -> gen_fetch_site | "off" -> FsMemo true | "range" -> FsMemo false | t -> failwith ("bad site " ^ t)
+let tok_of_site = function FsDirect -> "direct" | FsMemo true -> "memo_by_offset" | FsMemo false -> "memo_by_range"
+
+let session site file queries =
+  let honest rs = OReturned (local_read file rs) in
+  let outs = reader_session site [] (List.map (fun rs -> (rs, honest)) queries) in
+  "ok outs=" ^ String.concat ";" (List.map tok_of_outcome outs)
+
 let handle line =
   match String.split_on_char ' ' (String.trim line) with
+  | ["session"; site; f; qs] ->
+    session (site_of_tok site) (bytes_of_tok f) (List.map ranges_of_tok (String.split_on_char ';' qs))
   | ["qtrace"; p; f; r; w; fl; ev] ->
     qtrace (prog_of_tok p) (bytes_of_tok f) (ranges_of_tok r) (int_of_string w) (fails_of_tok fl) (split_on ',' ev)
   | ["qexplore"; p; f; r; w; fl; m] ->
@@ -327,10 +353,11 @@ let handle line =
     let xs = xstep (pj = "T") (collect_of_tok c) job (bytes_of_tok f) (fails_of_tok fl) in
     xexplore xs job (ranges_of_tok r) (int_of_string w) (int_of_string m)
   | ["shape"] ->
-    Printf.sprintf "ok worker=%s main=%s per_job=%s collect=%s read=%s reader_workers_for_7=%d"
+    Printf.sprintf "ok worker=%s main=%s per_job=%s collect=%s read=%s reader_workers_for_7=%d kept_between_queries=%s"
       (String.concat "," (List.map tok_of_winstr gen_worker_prog)) (String.concat "," (List.map tok_of_minstr gen_main_prog))
       (if gen_exec_stream_per_job then "T" else "F") (match gen_exec_collect with BySubmission -> "sub" | ByCompletion -> "comp")
       (String.concat "," (List.map tok_of_sinstr gen_stream_read)) (int_of_nat (gen_fetch_workers (nat_of_int 7)))
+      (tok_of_site gen_fetch_site)
   | ["workers"; n] -> Printf.sprintf "ok workers=%d" (int_of_nat (gen_fetch_workers (nat_of_int (int_of_string n))))
   | _ -> "error bad command"
 
